@@ -30,7 +30,7 @@ MODEL_NAME = "Html/Macro.v"
 HARNESS = "macro"
 ALLOWED_AXIOMS = []
 RUN_IMPORT = "Html.MacroRun"
-READY = False
+READY = True
 
 N_BINS = 8
 import hashlib as _hashlib
@@ -38,7 +38,7 @@ _TAG_REPO = "" if C.REPO == "/repo" else "-" + _hashlib.sha1(C.REPO.encode()).he
 GEN_DIR = os.path.join(C.BUILD, "c18" + _TAG_REPO, "gen")
 
 RULE = ("templates drawn from one PRNG (VERIF_SEED) over the grammar: elements (HTML normal, void, SVG, custom, "
-        "raw-text script/style/textarea/noscript, title) nested to depth 4, static attributes (string literal, no "
+        "raw-text script/style/noscript, escapable raw text textarea/title) nested to depth 4, static attributes (string literal, no "
         "value), dynamic attributes ({String}, {bool}, {Option<String>}), class:name / class:name={bool}, "
         "class=(\"n\", bool) / class=([..], bool), style:prop=\"v\" / style:prop={..} / style=(\"p\", \"v\"), text "
         "literals (also empty), {String} blocks, fragments, two fixed components; strings from a pool with "
@@ -67,8 +67,8 @@ ASSUMPTIONS = [
     "the hydration property, not a macro matter)",
     "class/style strings do not begin or end with non-ASCII Unicode white space (str::trim would remove it, the "
     "inert path keeps it)",
-    "text inside script/style/textarea/noscript does not contain '</', and text inside textarea contains no '&' "
-    "(raw text is emitted verbatim by both paths: property C06)",
+    "text inside script/style/noscript does not contain '</' (raw text is emitted verbatim by both paths: "
+    "property C06, finding F-C06-b)",
     "tag and attribute names consist of ASCII letters, digits, '-', '_', ':'; void elements have no children; the "
     "obsolete <param> (void for the macro, unknown to tachys) is not used",
     "class is read as a set of white-space separated tokens and style as a set of ';'-separated declarations "
@@ -93,7 +93,7 @@ RUST_KW = {"type", "for", "as", "loop", "async"}
 VOID = ["br", "hr", "img", "input", "meta", "link", "wbr", "source", "area", "base", "col", "embed", "track"]
 NORMAL = ["div", "p", "span", "section", "ul", "li", "b", "i", "em", "h1", "a", "button", "label", "pre", "main",
           "article", "strong", "td", "option", "title"]
-RAW = ["script", "style", "textarea", "noscript"]
+RAW = ["script", "style", "noscript", "textarea"]
 SVG_ROOT = "svg"
 SVG_CHILD = ["g", "circle", "rect", "path", "text", "line", "defs", "tspan", "clipPath", "linearGradient"]
 CUSTOM = ["my-el", "x-widget-2"]
@@ -264,10 +264,10 @@ def gen_elem(rng, depth, dyn_p, in_svg=False):
         tag = pick(rng, CUSTOM)
         return ["e", tag, gen_attrs(rng, tag, "custom", dyn_p), gen_children(rng, depth, dyn_p)]
     tag = pick(rng, RAW)
-    pool = TEXTAREA_TEXTS if tag == "textarea" else RAW_TEXTS
+    pool = TEXTS if tag == "textarea" else RAW_TEXTS
     ch = [gen_text(rng, dyn_p, pool) for _ in range(pick(rng, [0, 1, 1, 2, 3]))]
     ch = [c for c in ch if not (c[0] == "b" and c[1] == "")]
-    while "</" in "".join(c[1] for c in ch):
+    while tag != "textarea" and "</" in "".join(c[1] for c in ch):
         ch = ch[:-1]
     return ["e", tag, gen_attrs(rng, tag, "html", dyn_p), ch]
 
@@ -310,6 +310,8 @@ FIXED = [
     ("escapes", [["e", "div", [], [["e", "input", [["p", "disabled", ["none"]], ["p", "type", ["lit", "text"]],
                                                ["p", "value", ["lit", "a\"b'c<d>&"]]], []]]]]),
     ("escapes", [["e", "div", [], [["e", "p", [["p", "title", ["lit", "</p><script>"]]], [["t", "</p><script>&amp;"]]]]]]),
+    ("textarea", [["e", "div", [], [["e", "textarea", [["p", "name", ["lit", "t"]]], [["t", "a&amp;b"], ["t", "</textarea><b>"]]]]]]),
+    ("textarea", [["e", "div", [], [["e", "textarea", [], [["t", "x"], ["b", "<&>"], ["t", ""]]]]]]),
     ("many-children", [["e", "ul", [], sum([[["e", "li", [["p", "id", ["lit", "i%d" % i]]], [["t", str(i)]]], ["t", "-"]]
                                              for i in range(10)], [])]]),
     ("svg", [["e", "div", [], [["e", "svg", [["p", "viewBox", ["lit", "0 0 1 1"]]],
@@ -338,7 +340,7 @@ def has_component(t):
 
 
 def generate(rng, tier):
-    n = 500 if tier == "quick" else 3000
+    n = 800 if tier == "quick" else 4000
     for kind, t in FIXED:
         yield dict(tpl=t, kind=kind, compare=True)
     for kind, t in FIXED_ORACLE_ONLY:
